@@ -56,6 +56,7 @@ type hist struct {
 	outsider   sdk.AccAddress
 	fund       sdk.AccAddress
 	blocked    sdk.AccAddress // a module account: refused as a recipient by x/bank
+	blocked2   sdk.AccAddress // an sdk module account (fee_collector): refused as a recipient as well
 	height     int64
 	cross      bool // a position between two non-native assets (or the same asset twice) was accepted
 	fixedPools bool // directed history: pools of 10^24 native and 2.5 * 10^24 external
@@ -172,7 +173,8 @@ func (h *hist) setup() {
 	h.lp, h.adm, h.outsider, h.fund = addrOf(0), addrOf(1), addrOf(2), addrOf(3)
 	h.traders = []sdk.AccAddress{addrOf(4), addrOf(5), addrOf(6)}
 	h.blocked = w.ModuleAddr(margintypes.ModuleName)
-	h.watch = append([]sdk.AccAddress{clpAddr, h.fund, h.blocked, h.outsider}, h.traders...)
+	h.blocked2 = w.ModuleAddr("fee_collector") // a module account of the sdk: blocked as a recipient as well
+	h.watch = append([]sdk.AccAddress{clpAddr, h.fund, h.blocked, h.blocked2, h.outsider}, h.traders...)
 	w.SetAdmin(h.adm)
 	huge := new(big.Int).Mul(pow10(18), pow10(15))
 	for _, d := range w.denoms {
@@ -190,7 +192,12 @@ func (h *hist) setup() {
 	}
 	out.Emit("watch "+strings.Join(ws, ","), "ok", "cfg", false)
 	out.Emit("cfg admins "+h.adm.String(), "ok", "cfg", false)
-	out.Emit("cfg blocked "+h.blocked.String()+","+clpAddr.String(), "ok", "cfg", false)
+	for _, a := range []sdk.AccAddress{h.blocked, h.blocked2, clpAddr} {
+		if !w.app.BankKeeper.BlockedAddr(a) {
+			panic("expected a blocked recipient: " + a.String())
+		}
+	}
+	out.Emit("cfg blocked "+h.blocked.String()+","+h.blocked2.String()+","+clpAddr.String(), "ok", "cfg", false)
 	// pools
 	for _, d := range w.denoms[1:] {
 		nat := new(big.Int).Mul(pow10(18+rng.Intn(9)), big.NewInt(int64(1+rng.Intn(9))))
@@ -610,10 +617,11 @@ func (h *hist) opParams() {
 	case 2:
 		p.InterestRateMax = h.decChoice("3", "1", "0.5")
 		p.InterestRateIncrease = h.decChoice("1", "0.1")
-	case 3: // UpdateParams validates neither fund address
-		p.IncrementalInterestPaymentFundAddress = h.blocked.String()
+	case 3: // UpdateParams validates neither fund address: the margin module account, an sdk module account, or the
+		// clp module account itself (the sender of every fund payment) — all refused as recipients by x/bank
+		p.IncrementalInterestPaymentFundAddress = h.blockedChoice().String()
 	case 4:
-		p.ForceCloseFundAddress = h.blocked.String()
+		p.ForceCloseFundAddress = h.blockedChoice().String()
 	case 5:
 		p.IncrementalInterestPaymentFundAddress = h.fund.String()
 		p.ForceCloseFundAddress = h.fund.String()
@@ -697,6 +705,10 @@ func (h *hist) solveOpenBoundary(t sdk.AccAddress, coll, bor string, sf sdk.Dec,
 	}
 	h.out.Hist["openboundary.trials"] += trials
 	return hits
+}
+
+func (h *hist) blockedChoice() sdk.AccAddress {
+	return []sdk.AccAddress{h.blocked, h.blocked2, h.w.ModuleAddr(clptypes.ModuleName)}[h.rng.Intn(3)]
 }
 
 func (h *hist) adminCloseAll(takeFund bool) {
@@ -940,6 +952,31 @@ func (h *hist) directed(kind int) {
 		}
 		for !h.opBlock() {
 		}
+	case 13: // both fund addresses set to the clp module account's own address (the account the fund payments are sent
+		// FROM), fund percentages 0.5: the bank refuses the recipient, so interest payments fail and are skipped and
+		// liquidations with a fund cut fail and are discarded; healthy positions on both sides, an interest epoch, a
+		// mid-epoch Close, AdminClose with the fund cut, then everything liquidated
+		clp := w.ModuleAddr(clptypes.ModuleName).String()
+		h.doOpen(t, "rowan", "cusdc", amt("cusdc", true), margintypes.Position_LONG, sdk.NewDec(2))
+		h.doOpen(h.traders[1], "cusdc", "rowan", amt("cusdc", false), margintypes.Position_LONG, sdk.MustNewDecFromStr("1.5"))
+		h.doOpen(h.traders[2], "ceth", "rowan", amt("ceth", false), margintypes.Position_LONG, sdk.NewDec(2))
+		h.doOpen(t, "rowan", "ceth", amt("ceth", true), margintypes.Position_LONG, sdk.NewDec(3))
+		p.IncrementalInterestPaymentFundAddress = clp
+		p.ForceCloseFundAddress = clp
+		p.IncrementalInterestPaymentFundPercentage = sdk.MustNewDecFromStr("0.5")
+		p.ForceCloseFundPercentage = sdk.MustNewDecFromStr("0.5")
+		h.setParams(&p)
+		for !h.opBlock() {
+		}
+		for h.opBlock() {
+		}
+		h.doClose(t, 1)
+		h.doAdminClose(h.adm, h.traders[1].String(), 2, true)
+		h.adminCloseAll(true)
+		for !h.opBlock() {
+		}
+		for !h.opBlock() {
+		}
 	case 5: // every pool at once: positions on both sides of every pool, two epoch boundaries, everything closed
 		// again — a lookup of "the positions of pool X" that also returns those of a pool whose symbol
 		// merely starts with X (or of X + the start of an address) shows here as custody moved on the wrong pool
@@ -1103,7 +1140,7 @@ func init() {
 			}
 			h := &hist{w: w, out: out, rng: rng, fixedPools: nhist == 4, evenPools: nhist == 9 || nhist == 12}
 			h.setup()
-			if nhist < 13 {
+			if nhist < 14 {
 				h.directed(nhist)
 				nhist++
 				continue
